@@ -25,6 +25,7 @@ func TestVerifReplay(t *testing.T) {
 		Harness string `json:"harness"`
 		Tape    string `json:"tape"`
 		Tier    string `json:"tier"`
+		Repeat  int    `json:"repeat"` // run up to Repeat times until the outcome is not ok (Go's map order is random)
 	}
 	if err := json.Unmarshal(data, &list); err != nil {
 		t.Fatal(err)
@@ -39,8 +40,17 @@ func TestVerifReplay(t *testing.T) {
 			res["kind"] = "error"
 			res["msg"] = err.Error()
 		} else {
-			vfS.tier = e.Tier
-			kind, msg := vfRun(h)
+			var kind, msg string
+			for try := 0; try <= e.Repeat; try++ {
+				if try > 0 {
+					vfLoadTape(e.Tape)
+				}
+				vfS.tier = e.Tier
+				kind, msg = vfRun(h)
+				if kind != "ok" {
+					break
+				}
+			}
 			res["kind"] = kind
 			res["msg"] = msg
 			res["covers"] = vfS.covers
